@@ -22,7 +22,7 @@ def table_lookups(cfg: CFG, is_table: Callable[[ast.AST], bool]):
     hit: List[Edge] = []
     keys: List[ast.AST] = []
     for n in g.nodes:
-        if n.kind == 'load_sub' and is_table(n.ast.value):
+        if n.kind == 'load_sub' and is_table(n.ast.value) and not n.meta.get('in_assert'):
             nodes.append(n)
             keys.append(n.ast.slice)
             miss += [e for e in g.succ[n.id] if e.label == 'exc']
